@@ -11,6 +11,7 @@ import (
 	"sync"
 	"time"
 
+	"github.com/go-openapi/runtime"
 	"github.com/go-openapi/runtime/client"
 	"github.com/go-openapi/runtime/verifhook"
 
@@ -78,6 +79,26 @@ func runConcurrent(m *mon.M, c *Case, x *exec, rt *client.Runtime) {
 
 	sch := &scheduler{byGoid: map[uint64]*local{}}
 	locals := make([]*local, n)
+	// one operation value for all goroutines: its closures find the calling goroutine's submission through a map that is
+	// filled before the start barrier and only read afterwards (each goroutine writes its own entry's fields only)
+	type mine struct {
+		s    *slot
+		call *Call
+	}
+	var (
+		sharedOp  *runtime.ClientOperation
+		sharedBox *opBox
+		byGoid    = map[uint64]*mine{}
+	)
+	if c.Conc.SharedOp {
+		sharedOp, sharedBox = x.operation(&c.Calls[0], x.slots[tokenOf(x.nonce, 0, 0)])
+		sharedBox.by = func() (*slot, *Call) {
+			if e := byGoid[goid()]; e != nil {
+				return e.s, e.call
+			}
+			return nil, nil
+		}
+	}
 	var regMu sync.Mutex
 	var registered, done sync.WaitGroup
 	start := make(chan struct{})
@@ -87,14 +108,22 @@ func runConcurrent(m *mon.M, c *Case, x *exec, rt *client.Runtime) {
 		locals[i] = &local{idx: i, rng: rand.New(rand.NewSource(c.Conc.SchedSeed*1000003 + int64(i)))}
 		go func(i int) {
 			defer done.Done()
+			me := &mine{}
 			regMu.Lock()
 			sch.byGoid[goid()] = locals[i]
+			byGoid[goid()] = me
 			regMu.Unlock()
 			registered.Done()
 			<-start
 			call := &c.Calls[i]
 			for k := 0; k < rounds(call); k++ {
-				x.submit(rt, call, x.slots[tokenOf(x.nonce, i, k)])
+				s := x.slots[tokenOf(x.nonce, i, k)]
+				if sharedOp != nil {
+					me.s, me.call = s, call
+					x.submitOp(rt, sharedOp, call, s)
+					continue
+				}
+				x.submit(rt, call, s)
 			}
 		}(i)
 	}
@@ -153,6 +182,21 @@ func runConcurrent(m *mon.M, c *Case, x *exec, rt *client.Runtime) {
 	m.Note("hook_events", int64(len(evs)))
 	m.Class(fmt.Sprintf("conc:procs=%d", procs))
 	m.Class(fmt.Sprintf("conc:n<=%d", bucket(n)))
+	if c.Conc.SharedOp {
+		m.Class("conc:one-operation-value-shared-by-all-goroutines")
+	}
+	if c.BasePath != "" {
+		m.Class("conc:base-path-assigned:" + basePathClass(c.BasePath))
+	}
+	if c.Debug {
+		m.Class("conc:debug-on")
+	}
+	if c.Adapter {
+		m.Class("conc:caller's-response-adapter")
+	}
+	if c.RtCtx == "nil" {
+		m.Class("conc:runtime-context-nil")
+	}
 	if len(evs) == 0 {
 		m.Class("conc:no-hook-events")
 	}
@@ -185,7 +229,7 @@ func runConcurrent(m *mon.M, c *Case, x *exec, rt *client.Runtime) {
 					one := *call
 					one.Rounds = 0
 					m.Violate(f.sig, fmt.Sprintf("(first seen in a concurrent run, N=%d; reproduced by this call alone) %s", n, f.text),
-						&Case{Registry: c.Registry, DefaultMT: c.DefaultMT, RtCtx: c.RtCtx, TCP: c.TCP, Debug: c.Debug, TokenBody: c.TokenBody, Calls: []Call{one}})
+						&Case{Registry: c.Registry, DefaultMT: c.DefaultMT, RtCtx: c.RtCtx, TCP: c.TCP, Debug: c.Debug, TokenBody: c.TokenBody, BasePath: c.BasePath, Adapter: c.Adapter, Calls: []Call{one}})
 					continue
 				}
 				m.Violate(f.sig, fmt.Sprintf("concurrent run (N=%d, GOMAXPROCS=%d), goroutine %d round %d: %s", n, procs, i, k, f.text), c)
@@ -219,7 +263,7 @@ func hasSig(fs []finding, sig string) bool {
 func runAlone(c *Case, call *Call) []finding {
 	one := *call
 	one.Rounds = 0
-	min := &Case{Registry: c.Registry, DefaultMT: c.DefaultMT, RtCtx: c.RtCtx, TCP: c.TCP, Debug: c.Debug, TokenBody: c.TokenBody, Calls: []Call{one}}
+	min := &Case{Registry: c.Registry, DefaultMT: c.DefaultMT, RtCtx: c.RtCtx, TCP: c.TCP, Debug: c.Debug, TokenBody: c.TokenBody, BasePath: c.BasePath, Adapter: c.Adapter, Calls: []Call{one}}
 	x := prepare(min)
 	defer x.release()
 	rt := x.newRuntime()
